@@ -360,7 +360,18 @@ class Folder:
                 raise NotConst("division by a quotient-dependent or non-positive value")
             m = b.c
             if a.k % m:
-                raise NotConst("the quotient's coefficient %d is not a multiple of the divisor %d" % (a.k, m))
+                if not isinstance(sg, tuple):
+                    raise NotConst("the quotient's coefficient %d is not a multiple of the divisor %d" % (a.k, m))
+                # on a bounded interval: pieces on which the (truncating) quotient is constant
+                def tq(t):
+                    v = a.c + a.k * t
+                    return abs(v) // m * (1 if v >= 0 else -1)
+                lo_, hi_ = sg
+                q0 = tq(lo_)
+                for t in range(lo_ + 1, hi_ + 1):
+                    if tq(t) != q0:
+                        raise Split(t)
+                return q0 if op == "/" else _norm(Aff(a.c - m * q0, a.k, sg))
             lo, hi = a.rng()
             if lo is not None and lo >= 0:
                 qc, rc = a.c // m, a.c % m                      # floor
